@@ -14,9 +14,11 @@ import (
 	"fmt"
 	"io"
 	"net"
+	"net/http"
 	"sort"
 	"strings"
 	"testing"
+	"time"
 
 	"pgregory.net/rapid"
 )
@@ -116,6 +118,17 @@ func vpC08Pick(t *rapid.T, label string, xs ...string) string {
 	return rapid.SampledFrom(xs).Draw(t, label)
 }
 
+// vpC08PickV picks among the first nValid (well-formed) alternatives when clean, among all otherwise.
+func vpC08PickV(t *rapid.T, label string, clean bool, nValid int, xs ...string) string {
+	if clean {
+		xs = xs[:nValid]
+	}
+	return rapid.SampledFrom(xs).Draw(t, label)
+}
+
+// vpC08Clean decides whether a generator builds a well-formed instance (about 60 %).
+func vpC08Clean(t *rapid.T) bool { return rapid.IntRange(0, 9).Draw(t, "clean") < 6 }
+
 // ---- Cookie ----------------------------------------------------------------------------------
 
 func vpC08GenCookie(t *rapid.T) ([]byte, int, string) {
@@ -207,24 +220,29 @@ func vpC08RunArgs(in []byte, _ int) (string, bool) {
 // ---- ParseByteRange --------------------------------------------------------------------------
 
 func vpC08GenRange(t *rapid.T) ([]byte, int, string) {
+	clean := vpC08Clean(t)
 	num := func(l string) string {
-		return vpC08Pick(t, l, "0", "1", "9", "10", "99", "100", "", "007", "18446744073709551616", "9223372036854775807", "9223372036854775808", "-1", "+1", " 1", "1 ", "x")
+		return vpC08PickV(t, l, clean, 7, "0", "1", "9", "10", "99", "100", "007", "", "18446744073709551616", "9223372036854775807", "9223372036854775808", "-1", "+1", " 1", "1 ", "x")
 	}
-	s := vpC08Pick(t, "unit", "bytes", "bytes", "bytes", "Bytes", "byte", "items", "") + vpC08Pick(t, "req", "=", "=", "=", "", " = ", ":")
+	s := vpC08PickV(t, "unit", clean, 1, "bytes", "bytes", "bytes", "Bytes", "byte", "items", "") + vpC08PickV(t, "req", clean, 1, "=", "=", "=", "", " = ", ":")
 	switch rapid.IntRange(0, 4).Draw(t, "rshape") {
-	case 0:
+	case 0, 3:
 		s += num("a") + "-" + num("b")
 	case 1:
 		s += "-" + num("suffix")
 	case 2:
 		s += num("a") + "-"
-	case 3:
-		s += num("a") + "-" + num("b") + "," + num("c") + "-" + num("d")
 	default:
-		s += num("a")
+		if clean {
+			s += num("a") + "-" + num("b")
+		} else if rapid.Bool().Draw(t, "multi") {
+			s += num("a") + "-" + num("b") + "," + num("c") + "-" + num("d")
+		} else {
+			s += num("a")
+		}
 	}
 	in, origin := vpC08Finish(t, s, 40)
-	cl := rapid.SampledFrom([]int{0, 1, 10, 100, 101, 1 << 30, -1}).Draw(t, "clen")
+	cl := rapid.SampledFrom([]int{100, 101, 1 << 30, 10, 1, 0, -1}).Draw(t, "clen")
 	return in, cl, origin
 }
 
@@ -236,13 +254,14 @@ func vpC08RunRange(in []byte, aux int) (string, bool) {
 // ---- VisitHeaderParams -----------------------------------------------------------------------
 
 func vpC08GenParams(t *rapid.T) ([]byte, int, string) {
+	clean := vpC08Clean(t)
 	var b strings.Builder
-	b.WriteString(vpC08Pick(t, "mt", "text/plain", "multipart/form-data", "*/*", "", "attachment", "a;b"))
+	b.WriteString(vpC08PickV(t, "mt", clean, 5, "text/plain", "multipart/form-data", "*/*", "", "attachment", "a;b"))
 	for i, n := 0, rapid.IntRange(0, 5).Draw(t, "nparam"); i < n; i++ {
-		b.WriteString(vpC08Pick(t, "psep", "; ", ";", " ;", ";  ", ";;"))
-		b.WriteString(vpC08Pick(t, "pk", "charset", "boundary", "q", "filename", "", "k k", "k\"", "name*"))
-		b.WriteString(vpC08Pick(t, "peq", "=", "=", "=", "", " = "))
-		b.WriteString(vpC08Pick(t, "pv", "utf-8", "0.9", "\"quoted\"", "\"a\\\"b\"", "\"a;b=c\"", "\"unterminated", "\"\\", "\"", "", "a b", "\"\"", "x\"y", "\"tr\\"))
+		b.WriteString(vpC08PickV(t, "psep", clean, 3, "; ", ";", ";  ", " ;", ";;"))
+		b.WriteString(vpC08PickV(t, "pk", clean, 5, "charset", "boundary", "q", "filename", "name*", "", "k k", "k\""))
+		b.WriteString(vpC08PickV(t, "peq", clean, 1, "=", "=", "=", "", " = "))
+		b.WriteString(vpC08PickV(t, "pv", clean, 6, "utf-8", "0.9", "\"quoted\"", "\"a\\\"b\"", "\"a;b=c\"", "\"\"", "\"unterminated", "\"\\", "\"", "", "a b", "x\"y", "\"tr\\"))
 	}
 	in, origin := vpC08Finish(t, b.String(), 80)
 	return in, rapid.SampledFrom([]int{1 << 20, 1 << 20, 1 << 20, 0, 1, 2}).Draw(t, "stopafter"), origin
@@ -273,22 +292,23 @@ func vpC08RunParams(in []byte, aux int) (string, bool) {
 // ---- MultipartFormWithLimit ------------------------------------------------------------------
 
 func vpC08GenMultipartBody(t *rapid.T) ([]byte, int, string) {
+	clean := vpC08Clean(t)
 	var b strings.Builder
-	b.WriteString(vpC08Pick(t, "pre", "", "", "preamble\r\n", "\r\n"))
+	b.WriteString(vpC08PickV(t, "pre", clean, 3, "", "", "preamble\r\n", "\r\n"))
 	for i, n := 0, rapid.IntRange(0, 4).Draw(t, "nparts"); i < n; i++ {
-		b.WriteString(vpC08Pick(t, "delim", "--xyz\r\n", "--xyz\r\n", "--xyz\n", "--xyz  \r\n", "--xyzz\r\n", "--xy\r\n"))
-		b.WriteString(vpC08Pick(t, "cd", "Content-Disposition: form-data; name=\"a\"\r\n", "Content-Disposition: form-data; name=\"f\"; filename=\"x.txt\"\r\nContent-Type: text/plain\r\n",
-			"content-disposition: form-data; name=a\r\n", "Content-Disposition: form-data\r\n", "Content-Disposition: attachment; name=\"z\"\r\n", "X-Other: 1\r\n", "", "garbage\r\n",
-			"Content-Disposition: form-data; name=\"q\"\r\nContent-Transfer-Encoding: quoted-printable\r\n", "Content-Disposition: form-data; name=\"f\"; filename=\"\"\r\n"))
-		b.WriteString(vpC08Pick(t, "hend", "\r\n", "\r\n", "\n", ""))
-		b.WriteString(vpC08Pick(t, "pbody", "value", "", "line1\r\nline2", "--xyz", "\r\n--xy", "=41=\r\n", strings.Repeat("v", 500), "a\x00b"))
-		b.WriteString(vpC08Pick(t, "pend", "\r\n", "\r\n", "\n", ""))
+		b.WriteString(vpC08PickV(t, "delim", clean, 1, "--xyz\r\n", "--xyz\r\n", "--xyz\n", "--xyz  \r\n", "--xyzz\r\n", "--xy\r\n"))
+		b.WriteString(vpC08PickV(t, "cd", clean, 5, "Content-Disposition: form-data; name=\"a\"\r\n", "Content-Disposition: form-data; name=\"f\"; filename=\"x.txt\"\r\nContent-Type: text/plain\r\n",
+			"content-disposition: form-data; name=a\r\n", "Content-Disposition: form-data; name=\"q\"\r\nContent-Transfer-Encoding: quoted-printable\r\n",
+			"Content-Disposition: form-data; name=\"f\"; filename=\"\"\r\n", "Content-Disposition: form-data\r\n", "Content-Disposition: attachment; name=\"z\"\r\n", "X-Other: 1\r\n", "", "garbage\r\n"))
+		b.WriteString(vpC08PickV(t, "hend", clean, 1, "\r\n", "\r\n", "\n", ""))
+		b.WriteString(vpC08PickV(t, "pbody", clean, 5, "value", "", "line1\r\nline2", "=41=\r\n", strings.Repeat("v", 500), "--xyz", "\r\n--xy", "a\x00b"))
+		b.WriteString(vpC08PickV(t, "pend", clean, 1, "\r\n", "\r\n", "\n", ""))
 	}
-	b.WriteString(vpC08Pick(t, "close", "--xyz--\r\n", "--xyz--\r\n", "--xyz--", "--xyz-\r\n", "", "--xyz--\r\nepilogue"))
+	b.WriteString(vpC08PickV(t, "close", clean, 3, "--xyz--\r\n", "--xyz--", "--xyz--\r\nepilogue", "--xyz-\r\n", ""))
 	in, origin := vpC08Finish(t, b.String(), 200)
 	// aux: low 2 bits select content-type / encoding variant, the rest is the limit
 	variant := rapid.SampledFrom([]int{0, 0, 0, 0, 1, 2, 3}).Draw(t, "mpvariant")
-	limit := rapid.SampledFrom([]int{1 << 20, 1 << 20, 1, len(in) - 1, len(in), len(in) + 1, 64}).Draw(t, "mplimit")
+	limit := rapid.SampledFrom([]int{1 << 20, 1 << 20, 1 << 20, len(in) + 1, len(in), len(in) - 1, 64, 1}).Draw(t, "mplimit")
 	if limit < 1 {
 		limit = 1
 	}
@@ -354,12 +374,19 @@ func vpC08RunMultipart(in []byte, aux int) (string, bool) {
 // ---- scalars ---------------------------------------------------------------------------------
 
 func vpC08GenDate(t *rapid.T) ([]byte, int, string) {
-	s := vpC08Pick(t, "wd", "Mon", "Tue", "Sun", "mon", "Xxx", "Monday", "") + vpC08Pick(t, "wsep", ", ", ", ", ",", " ") +
-		vpC08Pick(t, "day", "02", "31", "00", "32", "2", "  ", "1x") + vpC08Pick(t, "dsep", " ", " ", "-", "") +
-		vpC08Pick(t, "mon", "Jan", "Feb", "Dec", "jan", "Foo", "13") + vpC08Pick(t, "msep", " ", " ", "-") +
-		vpC08Pick(t, "year", "2006", "1970", "9999", "0000", "06", "20060", "-001") + " " +
-		vpC08Pick(t, "time", "15:04:05", "23:59:60", "24:00:00", "00:00:00", "15:04", "15:04:05.5", "1:2:3", "::") +
-		vpC08Pick(t, "tz", " GMT", " GMT", " UTC", " gmt", "", " +0000", " GMT ")
+	var s string
+	if vpC08Clean(t) {
+		// a well-formed IMF-fixdate of a generated instant (formatted by the standard library)
+		sec := rapid.Int64Range(-2000000000, 253402300799).Draw(t, "unix")
+		s = time.Unix(sec, 0).UTC().Format(http.TimeFormat)
+	} else {
+		s = vpC08Pick(t, "wd", "Mon", "Tue", "Sun", "mon", "Xxx", "Monday", "") + vpC08Pick(t, "wsep", ", ", ", ", ",", " ") +
+			vpC08Pick(t, "day", "02", "31", "00", "32", "2", "  ", "1x") + vpC08Pick(t, "dsep", " ", " ", "-", "") +
+			vpC08Pick(t, "mon", "Jan", "Feb", "Dec", "jan", "Foo", "13") + vpC08Pick(t, "msep", " ", " ", "-") +
+			vpC08Pick(t, "year", "2006", "1970", "9999", "0000", "06", "20060", "-001") + " " +
+			vpC08Pick(t, "time", "15:04:05", "23:59:60", "24:00:00", "00:00:00", "15:04", "15:04:05.5", "1:2:3", "::") +
+			vpC08Pick(t, "tz", " GMT", " GMT", " UTC", " gmt", "", " +0000", " GMT ")
+	}
 	in, origin := vpC08Finish(t, s, 40)
 	return in, 0, origin
 }
@@ -373,12 +400,17 @@ func vpC08RunDate(in []byte, _ int) (string, bool) {
 }
 
 func vpC08GenIPv4(t *rapid.T) ([]byte, int, string) {
+	clean := vpC08Clean(t)
 	oct := func(l string) string {
-		return vpC08Pick(t, l, "0", "1", "127", "255", "256", "999", "01", "001", "", "1e1", "-1", " 1", "0x1", "4294967296", "18446744073709551617")
+		return vpC08PickV(t, l, clean, 6, "0", "1", "127", "255", "10", "99", "256", "999", "01", "001", "", "1e1", "-1", " 1", "0x1", "4294967296", "18446744073709551617")
 	}
 	s := oct("o1")
-	for i, n := 0, rapid.SampledFrom([]int{3, 3, 3, 3, 2, 4, 0}).Draw(t, "ndots"); i < n; i++ {
-		s += vpC08Pick(t, "dot", ".", ".", ".", "..", ":") + oct("o")
+	ndots := 3
+	if !clean {
+		ndots = rapid.SampledFrom([]int{3, 3, 3, 3, 2, 4, 0}).Draw(t, "ndots")
+	}
+	for i := 0; i < ndots; i++ {
+		s += vpC08PickV(t, "dot", clean, 1, ".", ".", ".", "..", ":") + oct("o")
 	}
 	in, origin := vpC08Finish(t, s, 24)
 	return in, rapid.IntRange(0, 3).Draw(t, "dstkind"), origin
@@ -402,12 +434,15 @@ func vpC08RunIPv4(in []byte, aux int) (string, bool) {
 }
 
 func vpC08GenNumber(t *rapid.T) ([]byte, int, string) {
-	s := vpC08Pick(t, "int", "0", "1", "42", "007", "9223372036854775807", "9223372036854775808", "18446744073709551616", "", strings.Repeat("9", 40), "-1", "+1", " 1", "1 ")
-	if rapid.Bool().Draw(t, "frac") {
-		s += vpC08Pick(t, "point", ".", ".", "..", ",") + vpC08Pick(t, "fracd", "5", "0", "000001", "", strings.Repeat("3", 40), "5.5")
-	}
-	if rapid.IntRange(0, 2).Draw(t, "exp") == 2 {
-		s += vpC08Pick(t, "e", "e", "E") + vpC08Pick(t, "esign", "", "-", "+", "--") + vpC08Pick(t, "expd", "0", "3", "10", "308", "400", "99999999999999999999", "")
+	clean := vpC08Clean(t)
+	s := vpC08PickV(t, "int", clean, 5, "0", "1", "42", "007", "9223372036854775807", "9223372036854775808", "18446744073709551616", "", strings.Repeat("9", 40), "-1", "+1", " 1", "1 ")
+	if !clean || rapid.IntRange(0, 3).Draw(t, "isfloat") == 3 {
+		if rapid.Bool().Draw(t, "frac") {
+			s += vpC08PickV(t, "point", clean, 1, ".", ".", "..", ",") + vpC08PickV(t, "fracd", clean, 3, "5", "0", "000001", "", strings.Repeat("3", 40), "5.5")
+		}
+		if rapid.IntRange(0, 2).Draw(t, "exp") == 2 {
+			s += vpC08Pick(t, "e", "e", "E") + vpC08PickV(t, "esign", clean, 3, "", "-", "+", "--") + vpC08PickV(t, "expd", clean, 3, "0", "3", "10", "308", "400", "99999999999999999999", "")
+		}
 	}
 	in, origin := vpC08Finish(t, s, 30)
 	return in, 0, origin
